@@ -8,5 +8,6 @@ CONSTANTS
   G <- GAll
   TraceFile = "trace.ndjson"
   Conformance = TRUE
+  TrackEvidence = TRUE
 INVARIANT Report
 CHECK_DEADLOCK FALSE
